@@ -4,6 +4,7 @@
                                         opts "n" (nil ValidateOpts) or a string of 0/1 (its bool fields)
      rq:    R<idhex>:<bits>            validate request for that id; bits = skipAll allowMissing hdrOk ok
             L<idhex>:<op>              library operation on the stored file, op token as in the c14 driver
+   K <hexsec,...>: the batches NewBatch + AddBatch give for these SEC codes, by the regenerated constructor tables (built_src)
    result line: the store after each request, stores joined by " ; ", then " ok=<0/1>" (store_ok of the initial store) *)
 open Model
 open Conv
@@ -73,6 +74,13 @@ let parse_rq (s : string) : srq =
 let () =
   let path = Sys.argv.(1) in
   iter_lines path (fun line ->
+    if String.length line > 2 && line.[0] = 'K' then begin
+      match split_ws line with
+      | [_; secs] ->
+        let secs = List.map bytes_of_hex (String.split_on_char ',' secs) in
+        print_endline (show_state (List.map (fun b -> (b.b_hdr, b.b_ctl)) (built_src secs)))
+      | _ -> print_endline "?"
+    end else
     match String.index_opt line '|' with
     | None -> print_endline "?"
     | Some k ->
